@@ -201,9 +201,9 @@ def run(chk, repo):
             sn, sa_, se = (kwarg(c, k_) for k_ in ('seqname', 'start', 'end'))
             if sn is None or sa_ is None or se is None:
                 continue
-            sn_t = unparse(sem.expand_names(nr, st_, sn, chains=chains))
-            st_t = unparse(sem.expand_names(nr, st_, sa_, chains=chains))
-            en_t = unparse(sem.expand_names(nr, st_, se, chains=chains))
+            sn_t = unparse(sem.expand_names(nr, st_, sn, chains=chains, allow_calls=('coordinate_genomic_to_gene',)))
+            st_t = unparse(sem.expand_names(nr, st_, sa_, chains=chains, allow_calls=('coordinate_genomic_to_gene',)))
+            en_t = unparse(sem.expand_names(nr, st_, se, chains=chains, allow_calls=('coordinate_genomic_to_gene',)))
             m_ = re.fullmatch(r'anno\.transcripts\[(\w+)\]\.transcript\.gene_id', sn_t)
             if not m_:
                 continue
